@@ -94,12 +94,13 @@ Definition nstep (s : nst) (o : nop) : res (nst * option N) :=
               | None => Ok (s', r)
               end
           | ImportToLocal k _ =>
-              match nthN (m_imports m) k, nthN (s_items (m_f m)) k with
-              | Some im, Some it =>
-                  if is_local it then Ok (s', r)                                   (* refused *)
-                  else Ok (mkNS m' (ns_imp s) (nset (ns_body s) k (match bname with Some t => t | None => tok_import (i_fp im) end)), r)
-                       (* local_func.body.name = self.name.or_else(|| Some(imp.name)): the builder's name, else the import's field name *)
-              | _, _ => Ok (s', r)
+              (* the function is resolved through the import (since the repair of D07): the first function item that
+                 carries import entry k *)
+              match nthN (m_imports m) k, find_imp (s_items (m_f m)) k 0 with
+              | Some im, Some p =>
+                  Ok (mkNS m' (ns_imp s) (nset (ns_body s) p (match bname with Some t => t | None => tok_import (i_fp im) end)), r)
+                  (* local_func.body.name = self.name.or_else(|| Some(imp.name)): the builder's name, else the import's field name *)
+              | _, _ => Ok (s', r)                                                 (* refused *)
               end
           | _ => Ok (s', r)
           end
